@@ -32,6 +32,8 @@ struct Pools {
     /// names used so far at the level being generated (unique within a level)
     level_shorts: Vec<char>,
     level_longs: Vec<S>,
+    /// variables already declared by some item: one item in eight reuses one of them
+    used_envs: Vec<S>,
 }
 
 impl Pools {
@@ -53,6 +55,7 @@ impl Pools {
             outer_longs: vec![],
             level_shorts: vec![],
             level_longs: vec![],
+            used_envs: vec![],
         }
     }
     fn short(&mut self, r: &mut Rng) -> Option<char> {
@@ -114,7 +117,13 @@ fn gen_named(r: &mut Rng, p: &mut Pools, env_p: usize) -> Option<Named> {
         }
     }
     if r.chance(env_p, 8) {
-        if let Some(e) = Pools::take(r, &mut p.envs) {
+        let reuse = if !p.used_envs.is_empty() && r.chance(1, 8) {
+            Some(*r.pick(&p.used_envs))
+        } else {
+            None
+        };
+        if let Some(e) = reuse.or_else(|| Pools::take(r, &mut p.envs)) {
+            p.used_envs.push(e);
             n.envs.push(e);
             if r.chance(1, 3) {
                 if let Some(e2) = Pools::take(r, &mut p.envs) {
@@ -407,6 +416,8 @@ pub struct Item {
     pub stack: Vec<W>,
     /// member of an adjacent group: (node id of the group, index among its members)
     pub group: Option<(usize, usize)>,
+    /// one of its variables is declared by another item too
+    pub shared_env: bool,
 }
 
 #[derive(Clone, Debug)]
@@ -477,6 +488,12 @@ pub fn index(o: &Opts) -> Index {
         }
     }
     hidden(&o.root, false, &mut ix.hidden_shorts);
+    let all: Vec<(usize, Vec<S>)> = ix.items.iter().map(|i| (i.id, i.named.envs.clone())).collect();
+    for it in ix.items.iter_mut() {
+        it.shared_env = all
+            .iter()
+            .any(|(id, envs)| *id != it.id && envs.iter().any(|e| it.named.envs.contains(e)));
+    }
     ix
 }
 
@@ -497,6 +514,7 @@ fn visit(s: &Shape, level: usize, ctx: Ctx, stack: &mut Vec<W>, counter: &mut us
                 adjacent_arg: false,
                 stack: st,
                 group: None,
+                shared_env: false,
             });
         }
         Shape::Arg {
@@ -514,6 +532,7 @@ fn visit(s: &Shape, level: usize, ctx: Ctx, stack: &mut Vec<W>, counter: &mut us
                 adjacent_arg: *adjacent,
                 stack: st,
                 group: None,
+                shared_env: false,
             });
         }
         Shape::Pos { .. } | Shape::Any { .. } | Shape::Literal { .. } => {
@@ -1609,7 +1628,7 @@ pub fn run_case(case: &Case, stats: &mut Stats) -> RunReport {
                         .collect::<Vec<_>>()
                         .join(".");
                     // ---- R2: the line wins
-                    if occ > 0 && it.ctx != Ctx::Other {
+                    if occ > 0 && it.ctx != Ctx::Other && !it.shared_env {
                         if let Some((_, v)) = &set {
                             let without = with_env_removed(&it.named.envs, || run_on(l, op));
                             stats.bump("rule.R2.evaluated");
@@ -1763,6 +1782,7 @@ pub fn run_case(case: &Case, stats: &mut Stats) -> RunReport {
                                     && !has_catch
                                     && !usage_level_empty
                                     && !tainted
+                                    && !it.shared_env
                                     && !shares_name_with_ancestor(&l.ix, it),
                             ) {
                                 let member_ids: Vec<usize> = l
@@ -1875,6 +1895,7 @@ pub fn run_case(case: &Case, stats: &mut Stats) -> RunReport {
                                 && !has_catch
                                 && !usage_level_empty
                                 && !tainted
+                                && !it.shared_env
                                 && !shares_name_with_ancestor(&l.ix, it)
                             {
                                 let mut tok: Vec<u8> = match it.named.longs.first() {
@@ -1933,6 +1954,63 @@ pub fn run_case(case: &Case, stats: &mut Stats) -> RunReport {
                                     );
                                 }
                             }
+                            // ---- R13: a variable declared by two items is read for each of them:
+                            // giving this item a variable of its own with the same value
+                            // changes nothing
+                            if it.shared_env {
+                                let shared: Vec<S> = it
+                                    .named
+                                    .envs
+                                    .iter()
+                                    .copied()
+                                    .filter(|e| {
+                                        l.ix.iter().any(|o| o.id != it.id && o.named.envs.contains(e))
+                                    })
+                                    .collect();
+                                let own = map_leaf(&l.opts, it.id, &|n: &Named| {
+                                    let mut n = n.clone();
+                                    for e in n.envs.iter_mut() {
+                                        if shared.contains(e) {
+                                            *e = crate::shape::intern(&format!("{}__OWN", e));
+                                        }
+                                    }
+                                    n
+                                });
+                                let twin = Live {
+                                    parser: exec::build_unchecked(&own),
+                                    ix: index(&own),
+                                    opts: own,
+                                };
+                                let saved = world::with(|s| {
+                                    let saved = s.env.clone();
+                                    for e in &shared {
+                                        if let Some(v) = s.env.get(e.as_bytes()).cloned() {
+                                            s.env.insert(format!("{}__OWN", e).into_bytes(), v);
+                                        }
+                                    }
+                                    saved
+                                });
+                                let other = run_on(&twin, op);
+                                world::with(|s| s.env = saved);
+                                stats.bump("rule.R13.evaluated");
+                                if !same_modulo_help(&other, &first) {
+                                    violation!(
+                                        "R13",
+                                        opi,
+                                        format!(
+                                            "rule=R13 classes={}/{}",
+                                            first.outcome.class(),
+                                            other.outcome.class()
+                                        ),
+                                        format!(
+                                            "item {:?} shares a variable with another item; with a variable of its own holding the same value the outcome differs\nshared: {}\nown   : {}",
+                                            it.named,
+                                            describe(&first),
+                                            describe(&other)
+                                        )
+                                    );
+                                }
+                            }
                             // ---- R10: usage instead of an error, never instead of a value: if
                             // the level would produce a value without fallback_to_usage (its
                             // items being satisfied by their variables) it produces it with
@@ -1965,7 +2043,7 @@ pub fn run_case(case: &Case, stats: &mut Stats) -> RunReport {
                             // ---- R11: under `catch` a value that does not convert counts as
                             // absent, wherever it came from: an invalid variable behaves like
                             // an unset one
-                            if it.ctx == Ctx::Simple && invalid_inside_catch(it, v) {
+                            if it.ctx == Ctx::Simple && !it.shared_env && invalid_inside_catch(it, v) {
                                 let without = with_env_removed(&it.named.envs, || run_on(l, op));
                                 stats.bump("rule.R11.evaluated");
                                 if !same_modulo_help(&without, &first) {
